@@ -119,31 +119,34 @@ fn key(c: u32, b: u32) -> u64 { ((c as u64) << 32) | (b as u64) }
 // @kind core
 // @timeout 600
 // @mem 12
-// @functions bbiread::nodes_overlapping (Leaf arm, instantiated with array iterators), bbiread::overlaps
-// @bounds 2 leaf children with arbitrary spans/offsets (full width), arbitrary query. (3 children: the SmallVec inline/heap union with a symbolic length exceeds 40 GB in propositional reduction - measured - so the claim is per pair of adjacent children)
-// @witness cover: both selected; none selected; only the second selected
+// @functions bbiread::nodes_overlapping (Leaf arm, array iterators), bbiread::overlaps
+// @bounds 3 leaf children with arbitrary spans/offsets (full width), arbitrary query
+// @stubs smallvec::SmallVec::push -> push within the inline capacity of 4 (asserted)
+// @witness cover: first and third selected, middle one not; all selected; none selected
 #[kani::proof]
-#[kani::unwind(4)]
+#[kani::unwind(5)]
+#[kani::stub(SmallVec::push, crate::verif_support::smallvec_push_inline)]
 fn c04_nodes_overlapping_leaf() {
     let (q, qs, qe): (u32, u32, u32) = (kani::any(), kani::any(), kani::any());
     let mk = || CirTreeNodeLeaf { start_chrom_ix: kani::any(), start_base: kani::any(), end_chrom_ix: kani::any(), end_base: kani::any(), data_offset: kani::any(), data_size: kani::any() };
-    let (l0, l1) = (mk(), mk());
+    let (l0, l1, l2) = (mk(), mk(), mk());
     let want = |l: &CirTreeNodeLeaf| key(q, qs) <= key(l.end_chrom_ix, l.end_base) && key(q, qe) >= key(l.start_chrom_ix, l.start_base);
-    let (w0, w1) = (want(&l0), want(&l1));
-    let iter: CirTreeNodeIterator<core::array::IntoIter<CirTreeNodeLeaf, 2>, core::iter::Empty<CirTreeNodeNonLeaf>> =
-        CirTreeNodeIterator::Leaf([l0, l1].into_iter());
+    let (w0, w1, w2) = (want(&l0), want(&l1), want(&l2));
+    let iter: CirTreeNodeIterator<core::array::IntoIter<CirTreeNodeLeaf, 3>, core::iter::Empty<CirTreeNodeNonLeaf>> =
+        CirTreeNodeIterator::Leaf([l0, l1, l2].into_iter());
     let (children, blocks) = nodes_overlapping(iter, q, qs, qe);
     assert!(children.is_empty(), "[leaf_no_children] a leaf node yields child nodes");
-    let n = (w0 as usize) + (w1 as usize);
+    let n = (w0 as usize) + (w1 as usize) + (w2 as usize);
     assert!(blocks.len() == n, "[leaf_count] number of selected blocks differs from the overlap spec");
     let mut k = 0;
     if w0 { assert!(blocks[k].offset == l0.data_offset && blocks[k].size == l0.data_size, "[leaf_sel0] wrong block or order"); k += 1; }
     if w1 { assert!(blocks[k].offset == l1.data_offset && blocks[k].size == l1.data_size, "[leaf_sel1] wrong block or order"); k += 1; }
-    let c1 = w0 & w1;
-    kani::cover!(c1, "both selected");
+    if w2 { assert!(blocks[k].offset == l2.data_offset && blocks[k].size == l2.data_size, "[leaf_sel2] wrong block or order"); k += 1; }
+    let c1 = w0 & !w1 & w2;
+    kani::cover!(c1, "first and third selected, middle not");
+    let c2 = w0 & w1 & w2;
+    kani::cover!(c2, "all selected");
     kani::cover!(n == 0, "none selected");
-    let c3 = !w0 & w1;
-    kani::cover!(c3, "only the second selected");
 }
 
 // @harness c04_nodes_overlapping_nonleaf
@@ -152,28 +155,33 @@ fn c04_nodes_overlapping_leaf() {
 // @kind core
 // @timeout 600
 // @mem 12
-// @functions bbiread::nodes_overlapping (NonLeaf arm, instantiated with array iterators), bbiread::overlaps
-// @bounds 2 non-leaf children with arbitrary spans/offsets (full width), arbitrary query (see c04_nodes_overlapping_leaf for why 2)
-// @witness cover: both selected; none selected
+// @functions bbiread::nodes_overlapping (NonLeaf arm, array iterators), bbiread::overlaps
+// @bounds 3 non-leaf children with arbitrary spans/offsets (full width), arbitrary query
+// @stubs smallvec::SmallVec::push -> push within the inline capacity of 4 (asserted)
+// @witness cover: first and third selected, middle one not; all selected; none selected
 #[kani::proof]
-#[kani::unwind(4)]
+#[kani::unwind(5)]
+#[kani::stub(SmallVec::push, crate::verif_support::smallvec_push_inline)]
 fn c04_nodes_overlapping_nonleaf() {
     let (q, qs, qe): (u32, u32, u32) = (kani::any(), kani::any(), kani::any());
     let mk = || CirTreeNodeNonLeaf { start_chrom_ix: kani::any(), start_base: kani::any(), end_chrom_ix: kani::any(), end_base: kani::any(), node_offset: kani::any() };
-    let (l0, l1) = (mk(), mk());
+    let (l0, l1, l2) = (mk(), mk(), mk());
     let want = |l: &CirTreeNodeNonLeaf| key(q, qs) <= key(l.end_chrom_ix, l.end_base) && key(q, qe) >= key(l.start_chrom_ix, l.start_base);
-    let (w0, w1) = (want(&l0), want(&l1));
-    let iter: CirTreeNodeIterator<core::iter::Empty<CirTreeNodeLeaf>, core::array::IntoIter<CirTreeNodeNonLeaf, 2>> =
-        CirTreeNodeIterator::NonLeaf([l0, l1].into_iter());
+    let (w0, w1, w2) = (want(&l0), want(&l1), want(&l2));
+    let iter: CirTreeNodeIterator<core::iter::Empty<CirTreeNodeLeaf>, core::array::IntoIter<CirTreeNodeNonLeaf, 3>> =
+        CirTreeNodeIterator::NonLeaf([l0, l1, l2].into_iter());
     let (children, blocks) = nodes_overlapping(iter, q, qs, qe);
     assert!(blocks.is_empty(), "[nonleaf_no_blocks] a non-leaf node yields data blocks");
-    let n = (w0 as usize) + (w1 as usize);
+    let n = (w0 as usize) + (w1 as usize) + (w2 as usize);
     assert!(children.len() == n, "[nonleaf_count] number of selected children differs from the overlap spec");
     let mut k = 0;
     if w0 { assert!(children[k] == l0.node_offset, "[nonleaf_sel0] wrong child or order"); k += 1; }
     if w1 { assert!(children[k] == l1.node_offset, "[nonleaf_sel1] wrong child or order"); k += 1; }
-    let c1 = w0 & w1;
-    kani::cover!(c1, "both selected");
+    if w2 { assert!(children[k] == l2.node_offset, "[nonleaf_sel2] wrong child or order"); k += 1; }
+    let c1 = w0 & !w1 & w2;
+    kani::cover!(c1, "first and third selected, middle not");
+    let c2 = w0 & w1 & w2;
+    kani::cover!(c2, "all selected");
     kani::cover!(n == 0, "none selected");
 }
 
@@ -239,17 +247,18 @@ fn put_nonleaf(v: &mut Vec<u8>, big: bool, c1: u32, s: u32, c2: u32, e: u32, chi
 // @tier off
 // @kind core
 // @timeout 2400
-// @mem 32
+// @mem 48
 // @functions bbiread::{search_cir_tree_inner, CirTreeBlockSearchIter::next, read_node, cir_tree_leaf_items, cir_tree_non_leaf_items, nodes_overlapping, overlaps} over std::io::Cursor<Vec<u8>> (the blanket BBIFileRead impl)
 // @bounds an independently encoded 2-level index: root with 2 children, leaves with 2 and 1 blocks, nodes placed out of order (second leaf, then root, then first leaf; root NOT first), little-endian (big-endian in the thorough tier); block spans full width on chromosomes 0/1; child spans = any spans that contain their leaf's blocks; arbitrary query
-// @stubs alloc::fmt::format -> empty; Vec::push / Vec::reserve -> within capacity (asserted)
+// @stubs alloc::fmt::format -> empty; Vec::push -> within capacity (asserted); SmallVec::push -> within inline capacity (asserted)
 // @assumes well-formed index: each recorded child span contains the blocks beneath it
 // @cut deeper trees and wider nodes (SmallVec cost, see c04_nodes_overlapping_leaf); zlib is not involved in the index
 // @witness cover: a query that descends into only one leaf; a query that hits all three blocks
 #[kani::proof]
-#[kani::unwind(6)]
+#[kani::unwind(4)]
 #[kani::stub(alloc::fmt::format, crate::verif_support::fake_format)]
 #[kani::stub(alloc::vec::Vec::push, crate::verif_support::push_within_capacity)]
+#[kani::stub(SmallVec::push, crate::verif_support::smallvec_push_inline)]
 fn c05_search_handbuilt_2level() {
     search_handbuilt(false);
 }
@@ -265,9 +274,10 @@ fn c05_search_handbuilt_2level() {
 // @stubs as c05_search_handbuilt_2level
 // @assumes as c05_search_handbuilt_2level
 #[kani::proof]
-#[kani::unwind(6)]
+#[kani::unwind(4)]
 #[kani::stub(alloc::fmt::format, crate::verif_support::fake_format)]
 #[kani::stub(alloc::vec::Vec::push, crate::verif_support::push_within_capacity)]
+#[kani::stub(SmallVec::push, crate::verif_support::smallvec_push_inline)]
 fn c05_search_be_handbuilt_2level() {
     search_handbuilt(true);
 }
@@ -403,4 +413,129 @@ fn read_info_header(big: bool) {
     let c2 = !isbed;
     kani::cover!(c2, "bigWig");
     core::mem::forget(cur);
+}
+
+fn zput_rec(v: &mut Vec<u8>, big: bool, c: u32, s: u32, e: u32, valid: u32, mn: u32, mx: u32, sm: u32, sq: u32) {
+    put32(v, big, c); put32(v, big, s); put32(v, big, e); put32(v, big, valid);
+    put32(v, big, mn); put32(v, big, mx); put32(v, big, sm); put32(v, big, sq);
+}
+
+/// file + decompression layer under the zoom reader (uncompressed zoom block)
+pub struct ZoomFake {
+    pub block: Vec<u8>,
+}
+impl BBIFileRead for ZoomFake {
+    type Reader = std::io::Cursor<Vec<u8>>;
+    fn get_block_data(&mut self, _info: &BBIFileInfo, _block: &Block) -> io::Result<Vec<u8>> {
+        Ok(self.block.clone())
+    }
+    fn blocks_for_cir_tree_node(&mut self, _e: Endianness, _o: u64, _c: u32, _s: u32, _en: u32) -> io::Result<(SmallVec<[u64; 4]>, SmallVec<[Block; 4]>)> {
+        Err(io::Error::from(io::ErrorKind::Other))
+    }
+    fn raw_reader(&mut self) -> &mut Self::Reader {
+        loop {}
+    }
+}
+
+fn zoom_block_values(big: bool) {
+    let (c0, s0, e0, v0): (u32, u32, u32, u32) = (kani::any(), kani::any(), kani::any(), kani::any());
+    let (c1, s1, e1, v1): (u32, u32, u32, u32) = (kani::any(), kani::any(), kani::any(), kani::any());
+    let (mn0, mx0, sm0, sq0): (u32, u32, u32, u32) = (kani::any(), kani::any(), kani::any(), kani::any());
+    let (mn1, mx1, sm1, sq1): (u32, u32, u32, u32) = (kani::any(), kani::any(), kani::any(), kani::any());
+    kani::assume(s0 < e0 && s1 < e1);
+    let (qc, qs, qe): (u32, u32, u32) = (kani::any(), kani::any(), kani::any());
+    kani::assume(qs <= qe);
+    let mut b: Vec<u8> = Vec::with_capacity(64);
+    zput_rec(&mut b, big, c0, s0, e0, v0, mn0, mx0, sm0, sq0);
+    zput_rec(&mut b, big, c1, s1, e1, v1, mn1, mx1, sm1, sq1);
+    let info = BBIFileInfo {
+        filetype: BBIFile::BigWig,
+        header: BBIHeader {
+            endianness: endian(big), version: 4, field_count: 0, defined_field_count: 0, zoom_levels: 1,
+            chromosome_tree_offset: 0, full_data_offset: 0, full_index_offset: 0, full_index_tree_offset: None,
+            auto_sql_offset: 0, total_summary_offset: 0, uncompress_buf_size: 0,
+        },
+        zoom_headers: Vec::new(),
+        chrom_info: Vec::new(),
+    };
+    let mut bw = BigWigRead { info, read: ZoomFake { block: b } };
+    let mut known: u64 = 0;
+    let r = get_zoom_block_values(&mut bw, Block { offset: 0, size: 64 }, &mut known, qc, qs, qe);
+    let (ok, n, a, bb) = match r {
+        Ok(mut it) => {
+            let a = it.next();
+            let b2 = it.next();
+            let c = it.next();
+            let n = (a.is_some() as u8) + (b2.is_some() as u8) + (c.is_some() as u8);
+            core::mem::forget(it);
+            (true, n, a, b2)
+        }
+        Err(e) => { core::mem::forget(e); (false, 0, None, None) }
+    };
+    assert!(ok, "[ok] a well-formed zoom block was rejected");
+    // every record of the queried chromosome that intersects the range must be returned (records that
+    // merely touch a boundary may be included: the reader's filter is inclusive), in stored order
+    let w0 = c0 == qc && e0 >= qs && s0 <= qe;
+    let w1 = c1 == qc && e1 >= qs && s1 <= qe;
+    assert!(n == (w0 as u8) + (w1 as u8), "[count] returned zoom records differ from the intersection rule");
+    let chk = |x: &ZoomRecord, c: u32, s: u32, e: u32, v: u32, mn: u32, mx: u32, sm: u32, sq: u32| {
+        x.chrom == c && x.start == s && x.end == e && x.summary.bases_covered == v as u64
+            && x.summary.min_val.to_bits() == (f32::from_bits(mn) as f64).to_bits()
+            && x.summary.max_val.to_bits() == (f32::from_bits(mx) as f64).to_bits()
+            && x.summary.sum.to_bits() == (f32::from_bits(sm) as f64).to_bits()
+            && x.summary.sum_squares.to_bits() == (f32::from_bits(sq) as f64).to_bits()
+    };
+    if w0 {
+        let okf = match &a { Some(x) => chk(x, c0, s0, e0, v0, mn0, mx0, sm0, sq0), None => false };
+        assert!(okf, "[first] first intersecting zoom record decoded wrongly");
+        if w1 {
+            let oks = match &bb { Some(x) => chk(x, c1, s1, e1, v1, mn1, mx1, sm1, sq1), None => false };
+            assert!(oks, "[second] second intersecting zoom record decoded wrongly / out of order");
+        }
+    } else if w1 {
+        let okf = match &a { Some(x) => chk(x, c1, s1, e1, v1, mn1, mx1, sm1, sq1), None => false };
+        assert!(okf, "[only_second] the only intersecting zoom record decoded wrongly");
+    }
+    let c1c = w0 & (s0 < qs) & (e0 > qs);
+    kani::cover!(c1c, "query starts strictly inside a record");
+    let c2c = !w0 & w1;
+    kani::cover!(c2c, "first record filtered out");
+    core::mem::forget(bw);
+}
+
+// @harness c07_zoom_block_values
+// @props C07 C08 C10
+// @tier quick
+// @kind core
+// @timeout 2400
+// @mem 24
+// @functions bbiread::get_zoom_block_values (little-endian file), through BigWigRead<ZoomFake>
+// @bounds one zoom block with 2 records (independent encoder); chromosome ids, coordinates, valid count and the four f32 statistics full width; arbitrary query chromosome and range
+// @stubs ZoomFake implements the public BBIFileRead trait (uncompressed block bytes); alloc::fmt::format -> empty; Vec::push -> within capacity (asserted)
+// @cut zlib; more than 2 records; the zoom index search (same functions as the main index)
+// @witness cover: a query starting strictly inside a record; first record filtered out
+#[kani::proof]
+#[kani::unwind(4)]
+#[kani::stub(alloc::fmt::format, crate::verif_support::fake_format)]
+#[kani::stub(alloc::vec::Vec::push, crate::verif_support::push_within_capacity)]
+fn c07_zoom_block_values() {
+    zoom_block_values(false);
+}
+
+// @harness c10_zoom_block_bigendian
+// @props C10 C07
+// @tier quick
+// @kind core
+// @timeout 2400
+// @mem 24
+// @functions bbiread::get_zoom_block_values (big-endian file)
+// @bounds as c07_zoom_block_values
+// @stubs as c07_zoom_block_values
+// @witness cover: as c07_zoom_block_values
+#[kani::proof]
+#[kani::unwind(4)]
+#[kani::stub(alloc::fmt::format, crate::verif_support::fake_format)]
+#[kani::stub(alloc::vec::Vec::push, crate::verif_support::push_within_capacity)]
+fn c10_zoom_block_bigendian() {
+    zoom_block_values(true);
 }
